@@ -39,6 +39,12 @@ def case_strategy(draw, tier):
         st.fixed_dictionaries({"kind": st.just("table"), "seed": st.integers(0, 10 ** 6)}),
         st.fixed_dictionaries({"kind": st.just("exponential"), "a": st.floats(0.05, 2.0)}),
         st.fixed_dictionaries({"kind": st.just("poisson"), "m": st.floats(0.5, 8.0)})))
+    if T == 2 and draw(st.integers(0, 11)) == 11:
+        # degrees so large that the split weights p**(t*j) fall into the sub-normal float range: the result must
+        # still be a finite distribution with the right mass per degree (compared at a relaxed tolerance there)
+        low = draw(st.integers(1030, 1060))
+        high = low + draw(st.integers(1, 3))
+        probs = [0.5, 0.5]
     if low >= 100:
         # keep the degree function comfortably positive on the range (a Poisson with small mean underflows to 0
         # there, and a range of total mass 0 can not be normalised)
@@ -136,10 +142,17 @@ def check(case):
     Z = sum(float(f(k)) for k in ks)
     for k in ks:
         mass = sum(v for j, v in jdd.items() if used(j) == k)
-        if not close(mass, float(f(k)) / Z):
+        if not (close(mass, float(f(k)) / Z) or (low >= 1000 and abs(mass - float(f(k)) / Z) <= 1e-2 * float(f(k)) / Z)):
             raise Violation("mass-per-degree", f"total mass of joint degrees using {k} edges is {mass!r}, "
                                                f"degree function prescribes {float(f(k)) / Z!r} (range {case['range']})")
-    compare(jdd, want, "split-law")
+    if low >= 1000:
+        # sub-normal weights carry only a few significant bits: compare at 1e-2 (relative)
+        for k_ in set(jdd) | set(want):
+            g_, w_ = jdd.get(k_, 0.0), want.get(k_, 0.0)
+            if not (abs(g_ - w_) <= 1e-2 * max(abs(w_), 1e-12) + 1e-9):
+                raise Violation("split-law-subnormal", f"mass at {k_}: loader {g_!r}, documented law {w_!r} (range {case['range']})")
+    else:
+        compare(jdd, want, "split-law")
     classes = {"loader_" + case["loader"], "path_" + case["path"], f"T{T}"}
     if case["loader"] == "delta":
         t = case["target"]
